@@ -398,6 +398,17 @@ def _mk_renders(rng, tree, form_mode):
         for tag, kw, role, extra in group:
             if extra is None:
                 extra = {"lit": kw[-1][1]["v"]}
+            kw = [list(x) for x in kw]
+            # state the author already put on the tag and the transform must OVERRIDE: a stale checked= / selected=
+            # (the control must come out unchecked when the literal does not match), a stale value= under a forced auto_value
+            if role == "check" and rng.random() < 0.25:
+                kw.insert(rng.randint(0, len(kw)), ["checked", S(rng.choice(["checked", "checked", ""]))])
+            elif role == "option" and rng.random() < 0.25:
+                kw.insert(rng.randint(0, len(kw)), ["selected", S(rng.choice(["selected", "selected", ""]))])
+            elif role == "value" and tag in ("input", "button") and not form_mode and rng.random() < 0.1 \
+                    and not any(k in ("value", "auto_value") for k, _ in kw):
+                kw.insert(rng.randint(0, len(kw)), ["value", S(rng.choice(["stale", "", "0"]))])
+                kw.append(["auto_value", rng.choice([B(True), S("on")])])
             entry = {"sel": sel, "tag": tag, "kwargs": kw, "role": role, "within": None, "form": form_mode}
             entry.update(extra)
             if role == "select":
@@ -410,7 +421,7 @@ def _mk_renders(rng, tree, form_mode):
                 lkw = []
                 if role == "check" and entry.get("lit") is not None:
                     lkw.append(["value", S(entry["lit"])])
-                elif role == "check" and node["t"] == "bool" and kw and kw[0][1].get("v") == "checkbox":
+                elif role == "check" and node["t"] == "bool" and str(dict((k, v.get("v")) for k, v in kw).get("type")).lower() == "checkbox":
                     # the label is given the value the control renders (bind.true)
                     lkw.append(["value", S(node["true"])])
                 renders.append({"sel": sel, "tag": "label", "kwargs": lkw, "role": "label", "within": None, "form": False,
@@ -582,6 +593,19 @@ class C12(Property):
                                   rd([0], "option", [["contents", S("a  b")]], "option", within=0, lit="a b", from_contents=True)]))
         # open KF-C12-f: textarea text starting with a newline
         cases.append(one("\nx", [rd([0], "textarea", [], "value")]))
+        # seeded mutation C12-boolean-checkbox-stale-checked: a pre-existing checked= / selected= must be removed when the
+        # element does not match (Boolean without value=, scalar with value=, Array, option)
+        boolf = {"t": "bool", "name": "b", "true": "1", "u": ""}
+        boolx = {"t": "bool", "name": "c", "true": "1", "u": "zzz"}
+        arr = {"t": "array", "flavour": "array", "name": "arr", "strip": False, "members": ["p"]}
+        cases.append(one("x", [rd([1], "input", [["type", S("checkbox")], ["checked", S("checked")]], "check", lit=None),
+                               rd([2], "input", [["checked", S("checked")], ["type", S("checkbox")]], "check", lit=None),
+                               rd([0], "input", [["type", S("radio")], ["value", S("y")], ["checked", S("checked")]], "check", lit="y"),
+                               rd([3], "input", [["type", S("checkbox")], ["value", S("q")], ["checked", S("")]], "check", lit="q"),
+                               rd([0], "select", [], "select"),
+                               rd([0], "option", [["value", S("y")], ["selected", S("selected")]], "option", within=4, lit="y"),
+                               rd([0], "input", [["type", S("text")], ["value", S("stale")], ["auto_value", B(True)]], "value")],
+                         extra_fields=[boolf, boolx, arr]))
         # MultiValue: members are flat pairs of their own
         cases.append(one("x", [rd([1], "input", [["type", S("checkbox")], ["value", S("q")]], "check", lit="q"),
                                rd([1], "input", [["type", S("text")]], "value")],
